@@ -16,6 +16,7 @@ import shutil
 import struct
 import subprocess
 import sys
+import zipfile
 
 import warnings
 
@@ -34,28 +35,63 @@ MANIFEST = dict(
          "decrunch_gzip hands exactly the deflate stream to the decoder and returns the payload for every legal combination of "
          "FTEXT/FHCRC/FEXTRA/FNAME/FCOMMENT/reserved bits (C08_gzip_framing, _stream, _roundtrip); the archive walks select the first "
          "regular non-excluded member for every placement of excluded/directory/unsupported companions (C08_member_selection, "
-         "_member_unpack); RLE90 decoding inverts every well-formed token stream (C08_rle90_roundtrip); dispatch + load pipeline "
-         "(C08_dispatch_gzip, C08_pipeline_of_decrunch, C08_pipeline_partial, C08_not_packed); over the generated depacker_list all signature tests "
-         "except LHA's are pairwise exclusive, so the dispatch order matters for LHA only (C08_tests_exclusive, C08_dispatch_of_test). The model is tied to the C on every run by "
-         "regenerated facts (depacker_list order and magic tests, exclude globs, sniff limits, gzip flag bits, MD5 step table, BUFLEN) and by "
-         "differential correspondence against the real md5.c, depacker test functions, libxmp_exclude_match, arc_unpack(RLE90) and link-time "
-         "spies inside xmp_load_module. A direct oracle loads archives produced by independent encoders through the real library.",
-    note="PARTIAL: entropy decoders (inflate, bzip2, LZMA2, LH1/5/6/7, LZX, LZW, squeeze, SQSH, S404, MMCMP bit coder, PowerPacker) are "
-         "parameters of the model, not proved; they are exercised by the oracle against independent encoders only. Byte-level framing "
-         "theorems exist for gzip and RLE90 only; zip/LHA/ArcFS walks are proved on the parsed member list, ARC/zip byte-level parsers are "
-         "modelled and tied by correspondence, LHA/ArcFS/LZX/PP/MMCMP/xz/bzip2 containers are opaque in the model (oracle only). "
+         "_member_unpack). FULLY MODELLED CODECS with round-trip theorems: compress(1) LZW as decoded by uncompress.c (input() macro = bit "
+         "extraction C08_lzw_input_macro, group alignment C08_lzw_align, decode(encode p) = p for maxbits 10..16, block mode on/off, every "
+         "CLEAR policy and phrase-length bound: C08_lzw_roundtrip); PowerPacker PP20 as decoded by ppdepack.c (PP_READ_BITS = pending-bit "
+         "stream C08_pp_read_bits, decrunch_pp(ppRender tokens) = ppExpand tokens for EVERY legal token stream of literal runs and matches — "
+         "all length classes, 7-bit and table offsets, overlapping copies, all header/trailer checks: C08_pp_tokens; concrete literal-run "
+         "encoder C08_pp_roundtrip); "
+         "ARC RLE90 for every well-formed token stream and for the concrete encoder (C08_rle90_roundtrip, C08_rle90_encoder). BYTE-LEVEL "
+         "FRAMING theorems: gzip (above); ARC/Spark arc_read on bytes: header walk over excluded members, member selection, stored + RLE90 "
+         "methods, CRC-16 gate (C08_arc_framing); zip: end-of-central-directory record, central directory walk and local headers yield "
+         "exactly the written members, stored members come back unconditionally and deflated ones given a correct inflate (C08_zip_members, "
+         "C08_zip_framing), miniz' 4096-byte window search with 3-byte overlap finds the last record behind every legal archive comment "
+         "(C08_zip_eocd_scan, C08_zip_framing_comment); LHA: the lhasa reader model (archive start search, header levels 0/1/2 with length/checksum tests, name fields, "
+         "extended header walk, MS-DOS all-caps fix, member walk, stored decoder) returns the first non-excluded -lh0- member "
+         "(C08_lha_framing); ArcFS: header checks, entry table walk, value offsets, stored + RLE90, CRC-16 gate (C08_arcfs_framing); LZX: entry headers with names/comments, chained header CRC-32, merge state machine on "
+         "unmerged entries, stored extraction, CRC-32 gate (C08_lzx_framing); MMCMP: header, block offset table, block and sub-block headers, copy of every "
+         "sub-block to its position in the zero-filled output (C08_mmcmp_framing). PIPELINES loadByPath(wrap p) = loadFromMemory p with md5 = MD5 p: C08_pipeline_gzip (hypothesis: inflate), "
+         "C08_pipeline_compress, C08_pipeline_pp and C08_pipeline_pp_tokens (no decoder hypothesis), C08_pipeline_arc / _arc_rle90 (stored + RLE90, no decoder "
+         "hypothesis), C08_pipeline_zip (stored: none; deflated: inflate), C08_pipeline_lha (-lh0-: none), C08_pipeline_arcfs (stored + RLE90: none), C08_pipeline_lzx (stored: none), C08_pipeline_mmcmp (stored blocks: none), generic C08_pipeline_of_decrunch, C08_not_packed; over the "
+         "generated depacker_list all signature tests except LHA's are pairwise exclusive, so the dispatch order matters for LHA only "
+         "(C08_tests_exclusive, C08_dispatch_of_test, C08_dispatch_gzip). The model is tied to the C on every run by regenerated facts "
+         "(depacker_list order and magic tests, exclude globs, sniff limits, gzip flag bits, MD5 step table, BUFLEN) and by differential "
+         "correspondence: real md5.c, depacker test functions, libxmp_exclude_match, arc_unpack(RLE90), link-time spies inside "
+         "xmp_load_module, and the real depack() entry points (decrunch_compress, decrunch_pp, arc_read, arcfs_read, lzx_read, decrunch_mmcmp, decrunch_zip, decrunch_lha) run on "
+         "streams of the independent python writers, on streams/archives written by the LEAN encoders of the theorems (lzwEncode, ppEncode, "
+         "arcWrap / arcfsWrap + rle90Enc, zipWrap, lhaWrap, lzxWrap, mmcmpWrap; the zip writer is refereed by python zipfile) and on mutated streams, compared with the Lean "
+         "decoders (for LHA also the repository's LH1/5/6/7 archives, header walk only). A direct "
+         "oracle loads archives produced by independent encoders through the real library.",
+    note="PARTIAL: the entropy decoders inflate, bzip2, LZMA2, LH1/5/6/7, LZX, ARC squeeze/crunch/squash, SQSH, S404 and the MMCMP bit coder "
+         "are parameters of the model, not proved (exercised by the oracle against independent encoders only); LZW of compress(1), PowerPacker "
+         "and RLE90 are modelled and proved completely (PowerPacker for every legal token stream; bit_buffer/todo are unbounded naturals in the "
+         "model, the C widths suffice for efficiency bytes <= 15 and files below 1 GiB), the LZW theorem excludes maxbits=9 (the decoder lineage switches to 10-bit codes when the 9-bit table "
+         "is full, compress(1) does not; the model mirrors the decoder). uncompress.c's input buffering (IBUFSIZ refills) is abstracted to a "
+         "contiguous stream (refills happen on code-group boundaries); tied on streams spanning many buffers. Byte-level framing theorems exist "
+         "for gzip, ARC/Spark and ArcFS (stored + RLE90 members), zip without zip64 (archive comments included: the model's end-of-central-directory search mirrors miniz' 4096-byte "
+         "windows as fixed in /repo 956fc91; comment lengths around the window borders are also exercised by the oracle) and LHA -lh0- members "
+         "with plain names (no path separators) and level 0/1/2 headers (level 3, paths, common-CRC and SFX stubs are modelled and tied by "
+         "correspondence, not in the theorem; the 24-byte lead-in buffer of lhasa is abstracted); LZX is proved for stored unmerged members (merged groups and the LZX decoder are modelled/parameter and tied by correspondence); "
+         "MMCMP is proved for stored blocks (the bit coder of compressed blocks is a parameter); xz/bzip2/SQSH/S404 containers are opaque in the "
+         "pipeline model (oracle only). "
          "Out of the property's quantifier and rejected by the code: concatenated multi-member gzip, xz dictionaries above XZ_MAX_DICT "
          "(known finding), zip names not matching the exclude globs (e.g. dir/README). Loaders that read companion files by path are "
          "excluded from the payload pool (C07/C10). Trusted: Lean kernel, translator, harness, differ, python encoders as referees.",
-    technique="Lean 4 proofs (induction over block folds / token streams / member lists, decide over generated tables) + translator + "
-              "differential correspondence + oracle with independent encoders",
+    technique="Lean 4 proofs (lock-step induction encoder/decoder, bit-stream arithmetic, induction over block folds / token streams / member "
+              "lists, decide over generated tables) + translator + differential correspondence (incl. Lean-encoder-to-real-decoder) + oracle "
+              "with independent encoders",
     design_ref="DESIGN.md section 4 C08 / C09",
 )
 
 REQUIRED = ["Xmp.Container." + n for n in (
     "C08_md5_chunking", "C08_md5_chunking_list", "C08_md5_read_loop", "C08_md5_wf", "C08_md5_spec", "C08_gzip_framing", "C08_gzip_stream",
     "C08_gzip_roundtrip", "C08_member_selection", "C08_member_unpack", "C08_rle90_roundtrip", "C08_sniff_limits",
-    "C08_dispatch_gzip", "C08_tests_exclusive", "C08_dispatch_of_test", "C08_pipeline_of_decrunch", "C08_pipeline_partial", "C08_not_packed")]
+    "C08_dispatch_gzip", "C08_tests_exclusive", "C08_dispatch_of_test", "C08_pipeline_of_decrunch", "C08_pipeline_gzip",
+    "C08_pipeline_partial", "C08_not_packed",
+    "C08_lzw_input_macro", "C08_lzw_align", "C08_lzw_roundtrip", "C08_pipeline_compress",
+    "C08_pp_read_bits", "C08_pp_roundtrip", "C08_pp_tokens", "C08_pipeline_pp", "C08_pipeline_pp_tokens",
+    "C08_zip_members", "C08_zip_framing", "C08_zip_eocd_scan", "C08_zip_framing_comment", "C08_pipeline_zip", "C08_lha_framing", "C08_pipeline_lha", "C08_arcfs_framing", "C08_pipeline_arcfs", "C08_lzx_framing", "C08_pipeline_lzx", "C08_mmcmp_framing", "C08_pipeline_mmcmp",
+    "C08_rle90_encoder", "C08_arc_framing", "C08_pipeline_arc", "C08_pipeline_arc_rle90")]
 
 WRAPS = ["-Wl,--wrap=libxmp_exclude_match", "-Wl,--wrap=libxmp_tinfl_decompress_mem_to_heap",
          "-Wl,--wrap=libxmp_arc_unpack", "-Wl,--wrap=hio_reopen_mem", "-Wl,--wrap=MD5Update"]
@@ -137,8 +173,16 @@ def gen_mod(rng, npat=None, total_words=None, sparse=False):
     return bytes(p)
 
 
+def aaaa_mod(rng):
+    """M.K. module whose first bytes are equal: a compress(1) stream WITHOUT block mode assigns code 256 to "aa" and
+    uses it as its second code"""
+    p = bytearray(gen_mod(rng, npat=1))
+    p[0:20] = b"a" * 20
+    return bytes(p)
+
+
 def generated_payloads(ck, n):
-    out = [("gen/tiny-mod", tiny_mod())]
+    out = [("gen/tiny-mod", tiny_mod()), ("gen/aaaa-mod", aaaa_mod(ck.rng))]
     # lengths that exercise the MD5 buffering: total = 1084 + 1024*npat + 2*words
     targets = [55, 56, 63, 64, 0, 1, 8191, 16384 - 54, 16384]
     for t in targets[:n]:
@@ -153,7 +197,7 @@ def generated_payloads(ck, n):
             words = ((want // 2) or 32) + 32 * ck.rng.randint(1, 20)
             total = base + 2 * words
         out.append(("gen/mod-len%d" % total, gen_mod(ck.rng, npat=npat, total_words=words)))
-    while len(out) < n + 1:
+    while len(out) < n + 2:
         out.append(("gen/mod-r%d" % len(out), gen_mod(ck.rng, sparse=ck.rng.random() < 0.3)))
     return out
 
@@ -187,8 +231,24 @@ def cli(cmd, data, timeout=120):
 HAVE = {t: shutil.which(t) is not None for t in ("gzip", "bzip2", "xz", "zip", "uncompress")}
 
 
-def make_archive(rng, fmt, p, xzmax):
-    """returns (archive bytes, recipe dict, info dict for the correspondence)"""
+# zip archive comment lengths that put the end-of-central-directory signature at / across the borders of the
+# 4096-byte windows of miniz' backward scan (with and without the 3-byte overlap), cf. /repo 956fc91
+ZIP_COMMENT_CORE = [4075, 4076, 4077, 8171, 8172, 8173]
+ZIP_COMMENT_MORE = sorted(set(
+    [4075 + 4096 * k + d for k in range(0, 15) for d in (0, 1, 2)] +
+    [4096 + 4093 * k - 22 + d for k in range(0, 15) for d in (-4, -3, -2, -1, 0, 1)] +
+    [1, 21, 22, 23, 4070, 4071, 4072, 4073, 4074, 4078, 4079, 4096, 65534, 65535]) - set(ZIP_COMMENT_CORE))
+ZIP_COMMENT_MORE = [x for x in ZIP_COMMENT_MORE if 0 < x <= 65535]
+
+
+def zip_comment(rng, n):
+    # never contains the byte 0x05, so no `PK\5\6` inside the comment
+    return bytes(rng.choice(b"abcdefghijklmnopqrstuvwxyz0123456789 PK.") for _ in range(n))
+
+
+def make_archive(rng, fmt, p, xzmax, force=None):
+    """returns (archive bytes, recipe dict, info dict for the correspondence); `force` pins encoder options"""
+    force = force or {}
     r = {"fmt": fmt}
     info = {}
     if fmt == "gzip":
@@ -254,13 +314,19 @@ def make_archive(rng, fmt, p, xzmax):
         meth = rng.choice(["deflated", "stored"])
         members = [(n, d, rng.choice([None, "stored", "deflated"])) for n, d in pre] + [(nm, p, None)] + \
                   [(n, d, None) for n, d in post]
-        variant = rng.choice(["plain", "plain", "plain", "stream", "zip64", "comment"])
+        variant = rng.choice(["plain", "plain", "plain", "stream", "zip64", "comment", "comment"])
+        clen = 0
+        if "comment_len" in force:
+            variant, clen = "comment", force["comment_len"]
+        elif variant == "comment":
+            clen = rng.choice([11 * rng.randint(1, 5), rng.randint(1, 300), rng.choice(ZIP_COMMENT_CORE), rng.choice(ZIP_COMMENT_MORE),
+                               rng.randint(1, 65535)])
         if variant == "stream":
             a = W.zip_streamed(members)
         else:
             a = W.zip_archive(members, method=meth, level=rng.choice([1, 6, 9]), zip64=(variant == "zip64"),
-                              comment=(b"libxmp c08 " * rng.randint(1, 5)) if variant == "comment" else b"")
-        r.update(dict(members=[m[0] for m in members], method=meth, variant=variant))
+                              comment=zip_comment(rng, clen))
+        r.update(dict(members=[m[0] for m in members], method=meth, variant=variant, comment_len=clen))
         info = {"trace": [(n.encode(), 1) for n, d in pre if not n.endswith("/")] + [(nm.encode(), 0)]}
     elif fmt == "zip-cli" and HAVE["zip"]:
         d = os.path.join(vlib.OUT, "c08-zipcli-%d" % os.getpid())
@@ -281,7 +347,7 @@ def make_archive(rng, fmt, p, xzmax):
         fmt = "zip"
     elif fmt == "compress":
         mb = rng.randint(10, 16)
-        bm = rng.random() < 0.85
+        bm = force.get("block_mode", rng.random() < 0.8)
         ce = rng.choice([0, 0, 1, 50, 1000]) if bm else 0
         a = W.compress_lzw(p, mb, bm, ce)
         r.update(dict(maxbits=mb, block_mode=bm, clear_every=ce))
@@ -612,6 +678,618 @@ def corr_rle(ck, exe, workdir, n):
     ck.cov["traces_validated_against_impl"] += len(cases)
 
 
+DP_TIMEOUT = 120
+
+
+def run_dp(ck, exe, workdir, tag, items):
+    """items: list of (depacker name, file bytes) -> list of `D …` lines from the REAL depack() functions.
+    A depacker that does not return (hang) is a VIOLATION: the culprit is isolated by re-running case by case."""
+    cf = os.path.join(workdir, "dp-%s.txt" % tag)
+    open(cf, "w").write("".join("%s %s\n" % (n, b.hex()) for n, b in items))
+    rc, out, err = vlib.run_exe(exe, ["dp", cf], timeout=DP_TIMEOUT, env=ASAN_ENV)
+    if rc == -999:
+        done = len(out.decode("latin-1").splitlines())
+        culprit = None
+        for n, b in items[done:done + 50]:
+            one = os.path.join(workdir, "dp-%s-one.txt" % tag)
+            open(one, "w").write("%s %s\n" % (n, b.hex()))
+            rc1, _, _ = vlib.run_exe(exe, ["dp", one], timeout=20, env=ASAN_ENV)
+            if rc1 == -999:
+                culprit = (n, b)
+                break
+        n, b = culprit if culprit else (items[done][0] if done < len(items) else "?", b"")
+        ck.violation("hang:%s:%s" % (n, tag), {"how": "python3 tools/check.py C08 --replay <this file>", "dp": n,
+                                               "stream_hex": b.hex() if len(b) <= 65536 else None},
+                     "the real %s depacker does not return on a %d-byte input (%s): no result after %d s" % (n, len(b), tag, 20 if culprit else DP_TIMEOUT))
+        return None
+    if rc != 0:
+        ck.violation("harness-abort:dp:%s:" % tag + vlib.sanitizer_signature(err), {"cases": cf, "stderr": err[-2000:]},
+                     "a real depacker aborted on a generated stream (%s)" % tag)
+        return None
+    return out.decode().splitlines()
+
+
+def corr_gzip(ck, exe, workdir, n):
+    """decrunch_gzip on legal members of the independent python writer (all optional header fields) and on the same
+    members truncated inside / flipped in the header: the model `gunzip` (header parse, EOF inside FEXTRA / FNAME /
+    FCOMMENT / FHCRC is a clean failure) vs the REAL decrunch_gzip; a truncated header must be refused, never hang."""
+    rng = ck.rng
+    cases = []
+    for i in range(n):
+        p = lzw_payload(rng, rng.choice([1, 30, 700]))
+        o = dict(level=rng.choice([1, 6, 9]), ftext=rng.random() < 0.3, hcrc=rng.random() < 0.5)
+        if rng.random() < 0.6:
+            o["extra"] = bytes(rng.getrandbits(8) for _ in range(rng.choice([0, 1, 4, 30])))
+        if rng.random() < 0.7:
+            o["name"] = bytes(rng.randint(1, 255) for _ in range(rng.choice([0, 1, 8, 40])))
+        if rng.random() < 0.7:
+            o["comment"] = bytes(rng.randint(1, 255) for _ in range(rng.choice([0, 3, 25, 200])))
+        a, hlen, d = W.gzip_member(p, **o)
+        cases.append((a, p, p, "python-writer %s" % sorted(o)))
+        for _ in range(4):                      # cut inside the header: every optional field is hit over the run
+            k = rng.randrange(1, hlen + 1)
+            cases.append((a[:k], None, p, "truncated at %d of a %d-byte header %s" % (k, hlen, sorted(o))))
+        cases.append((a[:hlen + rng.randrange(0, 9)], None, p, "truncated behind the header"))
+        b = bytearray(a)
+        b[rng.randrange(0, hlen)] ^= 1 << rng.randrange(8)
+        cases.append((bytes(b), None, p, "header bit flipped"))
+    real = run_dp(ck, exe, workdir, "gzip", [("gzip", a) for a, _, _, _ in cases])
+    if real is None:
+        return
+    ck.bump("gzip_members_and_truncations", len(cases))
+    for (a, exp, p, tag), r in zip(cases, real):
+        if exp is not None and r != "D ok %d %016x" % (len(exp), fnv1a(exp)):
+            ck.violation("oracle:gzip:stream", {"dp": "gzip", "stream_hex": a.hex(), "what": tag},
+                         "decrunch_gzip does not return the payload of a legal member (%s): %s" % (tag, r))
+            return
+    if not ck.lean_ok:
+        return
+    model = vlib.run_driver("drv_c08", "".join("gz %s %s\n" % (a.hex(), p.hex() or "-") for a, _, p, _ in cases), timeout=3000)
+    nd = 0
+    for (a, exp, p, tag), r, m in zip(cases, real, model):
+        if m == "D dec":
+            nd += 1
+            continue                # header accepted: the outcome is inflate's (parameter of the model)
+        if r != m:
+            ck.unproved("correspondence Container.gunzip vs decrunch_gzip", "%s (%d bytes): real=%s model=%s file=%s" % (tag, len(a), r, m, a[:80].hex()))
+            return
+    ck.bump("gzip_headers_refused_identically", len(cases) - nd)
+    ck.cov["traces_validated_against_impl"] += len(cases) - nd
+
+
+def lzw_payload(rng, n):
+    k = rng.randrange(5)
+    if k == 0:
+        return bytes(rng.getrandbits(8) for _ in range(n))
+    if k == 1:
+        return bytes(rng.choice(b"ab") for _ in range(n))
+    if k == 2:
+        return bytes([rng.randrange(256)]) * n
+    if k == 3:
+        return bytes((i // 7 * 13 + i % 5) & 0xff for i in range(n))
+    return bytes(rng.choice([0, 0, 0, 1, 255, rng.getrandbits(8)]) for _ in range(n))
+
+
+def corr_lzw(ck, exe, workdir, n):
+    """Lzw.unlzw (model of decrunch_compress) vs the real uncompress.c on: streams of the independent python writer,
+    streams of the LEAN encoder (the one in the round-trip theorem), bit-flipped / truncated / re-flagged streams,
+    and maxbits=9 streams (lineage quirk).  Streams span several IBUFSIZ input buffers."""
+    rng = ck.rng
+    cases = []          # (stream, expected payload or None, tag)
+    enc = []
+    sizes = [1, 2, 5, 30, 300, 3000, 12000, 30000]
+    for i in range(n):
+        p = lzw_payload(rng, rng.choice(sizes))
+        mb = rng.randint(10, 16)
+        bm = rng.random() < 0.8
+        ce = rng.choice([0, 0, 1, 50, 1000]) if bm else 0
+        cases.append((W.compress_lzw(p, mb, bm, ce), p, "python-writer maxbits=%d block=%s clear_every=%d n=%d" % (mb, bm, ce, len(p))))
+        ce2 = rng.choice([0, 0, 3, 7, 100, 2000])
+        ml = rng.choice([65536, 65536, 1, 2, 3, 10])
+        enc.append(("lzwenc %d %d %d %d %s" % (mb, 1 if bm else 0, ce2, ml, p.hex() or "-"), p,
+                    "lean-encoder maxbits=%d block=%s clear_every=%d max_len=%d n=%d" % (mb, bm, ce2, ml, len(p))))
+    # old format (no block mode): code 256 is an ordinary entry; equal bytes make it the second code of the stream
+    n256 = 0
+    for i in range(max(4, n // 10)):
+        p = bytes([rng.randrange(256)]) * rng.choice([3, 4, 9, 100, 3000]) + lzw_payload(rng, rng.choice([0, 5, 500]))
+        mb = rng.randint(10, 16)
+        cases.append((W.compress_lzw(p, mb, False, 0), p, "python-writer no-block-mode code256 maxbits=%d n=%d" % (mb, len(p))))
+        enc.append(("lzwenc %d 0 0 65536 %s" % (mb, p.hex()), p, "lean-encoder no-block-mode code256 maxbits=%d n=%d" % (mb, len(p))))
+        n256 += 2
+    ck.bump("lzw_nonblock_streams_using_code_256", n256)
+    if ck.lean_ok:
+        out = vlib.run_driver("drv_c08", "".join(l + "\n" for l, _, _ in enc), timeout=3000)
+        for (l, p, tag), o in zip(enc, out):
+            if not o.startswith("E "):
+                ck.unproved("driver lzwenc", o[:100])
+                return
+            cases.append((bytes.fromhex(o[2:]) if o[2:] != "-" else b"", p, tag))
+    legit = len(cases)
+    for i in range(2 * n):
+        s, p, tag = cases[rng.randrange(legit)]
+        s = bytearray(s)
+        if len(s) <= 6:
+            continue
+        for _ in range(rng.choice([1, 1, 2, 5])):
+            s[rng.randrange(3, len(s))] ^= 1 << rng.randrange(8)
+        if rng.random() < 0.3:
+            s = s[:rng.randrange(5, len(s))]
+        if rng.random() < 0.1:
+            s[2] = rng.choice([0x89, 0x8a, 0x09, 0x90, 0x11, 0x88, 0xb0, 0x70])
+        cases.append((bytes(s), None, "mutated " + tag))
+    for i in range(max(2, n // 10)):
+        cases.append((W.compress_lzw(lzw_payload(rng, rng.choice([100, 1000, 5000])), 9, True, 0), None, "python-writer maxbits=9"))
+    cases = [c for c in cases if len(c[0]) >= 5]        # (an empty code area makes realloc(outbuf, 0): not reachable below 22 bytes)
+    real = run_dp(ck, exe, workdir, "lzw", [("compress", s) for s, _, _ in cases])
+    if real is None:
+        return
+    ck.bump("lzw_streams", len(cases))
+    ck.bump("lzw_streams_accepted", sum(1 for l in real if l.startswith("D ok")))
+    ck.bump("lzw_streams_multi_buffer", sum(1 for s, _, _ in cases if len(s) > 3 * 8192))
+    for (s, p, tag), a in zip(cases, real):
+        if p is not None and a != "D ok %d %016x" % (len(p), fnv1a(p)):
+            ck.violation("oracle:compress:stream", {"stream_hex": s.hex() if len(s) < 40000 else None, "payload_hex": p.hex() if len(p) < 40000 else None, "what": tag},
+                         "decrunch_compress does not return the payload of a legal compress(1) stream (%s): %s" % (tag, a))
+            return
+    if not ck.lean_ok:
+        return
+    model = vlib.run_driver("drv_c08", "".join("lzw %s\n" % s.hex() for s, _, _ in cases), timeout=3000)
+    for (s, p, tag), a, b in zip(cases, real, model):
+        if a != b:
+            ck.unproved("correspondence Lzw.unlzw vs decrunch_compress", "%s (%d bytes): real=%s model=%s stream=%s" % (tag, len(s), a, b, s[:64].hex()))
+            return
+    ck.cov["traces_validated_against_impl"] += len(cases)
+
+
+PP_EFFS = [(9, 9, 9, 9), (9, 10, 10, 10), (9, 10, 11, 11), (9, 10, 12, 12), (9, 10, 12, 13), (15, 15, 15, 15), (9, 9, 15, 12)]
+
+
+def corr_pp(ck, exe, workdir, n):
+    """PowerPacker.decrunchPP (model of decrunch_pp/ppdepack/ppDecrunch) vs the real ppdepack.c on files of the
+    independent python writer (literals + matches), files of the LEAN literal-run encoder (object of C08_pp_roundtrip)
+    and mutated files (bit flips, removed longwords, skip-bit / efficiency bytes rewritten)."""
+    rng = ck.rng
+    cases, enc = [], []
+    for i in range(n):
+        p = lzw_payload(rng, rng.choice([1, 2, 3, 4, 5, 7, 30, 300, 3000, 20000]))
+        eff = rng.choice(PP_EFFS)
+        um = rng.random() < 0.8
+        cases.append((W.pp20(p, eff=eff, use_matches=um, max_match=rng.choice([5, 12, 40, 300])), p,
+                      "python-writer eff=%s matches=%s n=%d" % (eff, um, len(p))))
+        enc.append(("ppenc %s %s" % (bytes(eff).hex(), p.hex()), p, "lean-encoder eff=%s n=%d" % (eff, len(p))))
+    if ck.lean_ok:
+        out = vlib.run_driver("drv_c08", "".join(l + "\n" for l, _, _ in enc), timeout=3000)
+        for (l, p, tag), o in zip(enc, out):
+            if not o.startswith("E "):
+                ck.unproved("driver ppenc", o[:100])
+                return
+            cases.append((bytes.fromhex(o[2:]), p, tag))
+    # random LEGAL token streams (literal runs + matches of every class) rendered by the Lean writer ppRender:
+    # the object of C08_pp_tokens; the expected payload is ppExpand of the same tokens
+    if ck.lean_ok:
+        tl = []
+        for i in range(n):
+            eff = rng.choice(PP_EFFS)
+            L, items = 0, []
+            for _ in range(rng.choice([1, 2, 5, 30, 200])):
+                nl = rng.choice([0, 0, 1, 2, 3, 4, 7, 40]) if L > 0 else rng.choice([1, 2, 3, 9])
+                lits = bytes(rng.choice([0, 1, 255, rng.getrandbits(8)]) for _ in range(nl))
+                ml = rng.choice([2, 3, 4, 5, 6, 11, 12, 13, 40, 300])
+                x = min(ml, 5) - 2
+                short = x == 3 and rng.random() < 0.5
+                width = 7 if short else eff[x]
+                mo = rng.randrange(0, min(L + nl, 1 << width))
+                items.append("%s:%d:%d:%d" % (lits.hex() or "-", ml, mo, 1 if short else 0))
+                L += nl + ml
+            if rng.random() < 0.5:
+                items.append("%s:0:0:0" % bytes(rng.getrandbits(8) for _ in range(rng.randint(1, 5))).hex())
+            tl.append("pprender %s %s" % (bytes(eff).hex(), " ".join(items)))
+        out = vlib.run_driver("drv_c08", "".join(l + "\n" for l in tl), timeout=3000)
+        for l, o in zip(tl, out):
+            f = o.split()
+            if len(f) != 3 or f[0] != "E":
+                ck.unproved("driver pprender", o[:100])
+                return
+            cases.append((bytes.fromhex(f[1]), bytes.fromhex(f[2]), "lean-token-stream " + l[:160]))
+        ck.bump("pp_lean_token_streams", len(tl))
+    legit = len(cases)
+    for i in range(3 * n):
+        s, p, tag = cases[rng.randrange(legit)]
+        s = bytearray(s)
+        for _ in range(rng.choice([1, 1, 2, 5])):
+            s[rng.randrange(4, len(s))] ^= 1 << rng.randrange(8)
+        if rng.random() < 0.2 and len(s) > 24:
+            del s[8:12]
+        if rng.random() < 0.1:
+            s[-1] = rng.choice([0, 1, 31, 32, 33, 255])
+        if rng.random() < 0.1:
+            s[rng.randrange(4, 8)] = rng.choice([8, 9, 15, 16, 0x19])
+        cases.append((bytes(s), None, "mutated " + tag))
+    cases = [c for c in cases if len(c[0]) >= 12]      # decrunch_pp reads data[4..7] unchecked: reachable only from 22 bytes on
+    real = run_dp(ck, exe, workdir, "pp", [("pp", s) for s, _, _ in cases])
+    if real is None:
+        return
+    ck.bump("pp_files", len(cases))
+    ck.bump("pp_files_accepted", sum(1 for l in real if l.startswith("D ok")))
+    for (s, p, tag), a in zip(cases, real):
+        if p is not None and a != "D ok %d %016x" % (len(p), fnv1a(p)):
+            ck.violation("oracle:pp:stream", {"stream_hex": s.hex() if len(s) < 40000 else None, "payload_hex": p.hex() if len(p) < 40000 else None, "what": tag},
+                         "decrunch_pp does not return the payload of a legal PP20 file (%s): %s" % (tag, a))
+            return
+    if not ck.lean_ok:
+        return
+    model = vlib.run_driver("drv_c08", "".join("pp %s\n" % s.hex() for s, _, _ in cases), timeout=3000)
+    for (s, p, tag), a, b in zip(cases, real, model):
+        if a != b:
+            ck.unproved("correspondence PowerPacker.decrunchPP vs decrunch_pp", "%s (%d bytes): real=%s model=%s file=%s" % (tag, len(s), a, b, s[:64].hex()))
+            return
+    ck.cov["traces_validated_against_impl"] += len(cases)
+
+
+def corr_arcenc(ck, exe, workdir, n):
+    """archives written by the LEAN writer `arcWrap` (+ `rle90Enc`), i.e. the object of C08_arc_framing, read by the REAL arc_read"""
+    rng = ck.rng
+    if not ck.lean_ok:
+        return
+    lines, exp = [], []
+    for i in range(n):
+        spark = rng.random() < 0.5
+        pre = companions(rng, ARC_EXCLUDED)
+        p = lzw_payload(rng, rng.choice([1, 3, 40, 700, 5000]))
+        nm = rng.choice(["SONG.MOD", "TEST.XM", "A", "MODULE", "tune/it", "x"])
+        ms = [(n_, rng.choice([1, 2, 3]), d) for n_, d in pre] + \
+             [(nm, rng.choice([1, 2, 3, 3]), p)] + \
+             [(n_, 2, d) for n_, d in companions(rng, ARC_EXCLUDED + ["OTHER.MOD"])]
+        lines.append("arcenc %d %s" % (1 if spark else 0, " ".join("%s:%d:%s" % (a.encode().hex(), m + (128 if spark else 0), d.hex() or "-") for a, m, d in ms)))
+        exp.append(p)
+    out = vlib.run_driver("drv_c08", "".join(l + "\n" for l in lines), timeout=3000)
+    arcs = [bytes.fromhex(o[2:]) for o in out]
+    real = run_dp(ck, exe, workdir, "arcenc", [("arc", a) for a in arcs])
+    if real is None:
+        return
+    model = vlib.run_driver("drv_c08", "".join("arc %s -\n" % a.hex() for a in arcs), timeout=3000)
+    for l, a, p, r, m in zip(lines, arcs, exp, real, model):
+        want = "D ok %d %016x" % (len(p), fnv1a(p))
+        if r != want:
+            ck.unproved("correspondence Container.arcWrap (Lean writer) vs arc_read", "%s: real=%s expected=%s" % (l[:200], r, want))
+            return
+        if m != "a ok %d %016x" % (len(p), fnv1a(p)):
+            ck.unproved("correspondence Container.arcRead vs arc_read", "%s: real=%s model=%s" % (l[:200], r, m))
+            return
+    ck.bump("arc_lean_written_archives", len(lines))
+    ck.cov["traces_validated_against_impl"] += len(lines)
+
+
+LHA_NAMES = MODULE_NAMES + ["SONG.MOD", "Mods/tune.it", "a\\b\\c.xm", "UPPER"]
+
+
+def corr_lha(ck, exe, workdir, n):
+    """Container.unlha (model of decrunch_lha over the lhasa reader: sfx skip, header levels 0-3, extended headers,
+    name fix-ups, member walk, stored decoder) vs the REAL decrunch_lha on: archives of the independent python writer,
+    archives written by the LEAN writer lhaWrap (object of C08_lha_framing), mutated archives (header bytes flipped,
+    truncation, leading junk / SFX stubs) and the repository's LH1/5/6/7 archives (structure only)."""
+    import glob
+    rng = ck.rng
+    cases = []          # (archive, expected payload or None, payload handed to the model's `dec`, tag)
+    for i in range(n):
+        p = lzw_payload(rng, rng.choice([1, 3, 40, 700, 1023, 1024, 1025, 5000]))
+        lv = rng.choice([0, 1, 2])
+        osid = rng.choice([b"U", b"M", b"A", b"w", b"2", b" "])
+        pre, post = split_companions(rng, companions(rng))
+        members = pre + [(rng.choice(LHA_NAMES), p)] + post
+        if rng.random() < 0.2:
+            members = [("dir/", b"")] + members
+        cases.append((W.lha_archive(members, lv, osid=osid), p, p, "python-writer level=%d os=%s %s" % (lv, osid.decode(), [m[0] for m in members])))
+    if ck.lean_ok:
+        enc = []
+        for i in range(n):
+            p = lzw_payload(rng, rng.choice([1, 3, 40, 700, 2048, 5000]))
+            ms = []
+            for a, d in companions(rng) + [(rng.choice(MODULE_NAMES + ["SONG.MOD", "UPPER"]), p)] + companions(rng, EXCLUDED_NAMES + ["z.mod"]):
+                ms.append("%s:%d:%d:%s" % (a.encode().hex(), rng.choice([0, 1, 2]), rng.choice(b"UMAw2 "), d.hex() or "-"))
+            enc.append(("lhaenc " + " ".join(ms), p))
+        out = vlib.run_driver("drv_c08", "".join(l + "\n" for l, _ in enc), timeout=3000)
+        for (l, p), o in zip(enc, out):
+            cases.append((bytes.fromhex(o[2:]), p, p, "lean-writer " + l[:120]))
+    legit = len(cases)
+    for i in range(3 * n):
+        a, exp, p, tag = cases[rng.randrange(legit)]
+        a = bytearray(a)
+        for _ in range(rng.choice([1, 1, 2, 4])):
+            k = rng.randrange(0, min(len(a), 80)) if rng.random() < 0.7 else rng.randrange(len(a))
+            a[k] = rng.choice([a[k] ^ (1 << rng.randrange(8)), 0, 0xff, rng.getrandbits(8)])
+        if rng.random() < 0.15:
+            a = a[:rng.randrange(1, len(a))]
+        if rng.random() < 0.1:
+            a = bytearray(b"MZ" + bytes(rng.getrandbits(8) for _ in range(rng.randint(0, 60)))) + a
+        if rng.random() < 0.05:
+            a = bytearray(b"xxLHA-SFXyyyy") + a + a
+        cases.append((bytes(a), None, p, "mutated " + tag))
+    real = run_dp(ck, exe, workdir, "lha", [("lha", a) for a, _, _, _ in cases])
+    if real is None:
+        return
+    ck.bump("lha_archives", len(cases))
+    ck.bump("lha_archives_accepted", sum(1 for l in real if l.startswith("D ok")))
+    for (a, exp, p, tag), r in zip(cases, real):
+        if exp is not None and r != "D ok %d %016x" % (len(exp), fnv1a(exp)):
+            if tag.startswith("lean-writer"):
+                ck.unproved("correspondence Container.lhaWrap (Lean writer) vs decrunch_lha", "%s: real=%s" % (tag, r))
+            else:
+                ck.violation("oracle:lha:stream", {"archive_hex": a.hex() if len(a) < 40000 else None, "what": tag},
+                             "decrunch_lha does not return the stored member of a legal archive (%s): %s" % (tag, r))
+            return
+    if not ck.lean_ok:
+        return
+    model = vlib.run_driver("drv_c08", "".join("lha %s %s\n" % (a.hex(), p.hex() or "-") for a, _, p, _ in cases), timeout=3000)
+    for (a, exp, p, tag), r, m in zip(cases, real, model):
+        if m == "D dec" and exp is None:
+            ck.bump("lha_mutated_cases_reaching_a_parameter_decoder")
+            continue        # a flipped method byte selected LH5 & co.: outside the modelled part
+        if r != m:
+            ck.unproved("correspondence Container.unlha vs decrunch_lha", "%s (%d bytes): real=%s model=%s archive=%s" % (tag, len(a), r, m, a[:96].hex()))
+            return
+    # repository archives with LH1/5/6/7 members and level 0/1/2 headers: header walk and sizes only
+    seeds = [f for f in sorted(glob.glob(os.path.join(vlib.REPO, "test-dev", "data", "l[0-3]_*"))) if os.path.getsize(f) < 400000]
+    if seeds:
+        sreal = run_dp(ck, exe, workdir, "lhaseeds", [("lha", open(f, "rb").read()) for f in seeds])
+        if sreal is None:
+            return
+        lines = []
+        for f, r in zip(seeds, sreal):
+            k = int(r.split()[2]) if r.startswith("D ok") else 0
+            lines.append("lhalen %s %d\n" % (open(f, "rb").read().hex(), k))
+        smodel = vlib.run_driver("drv_c08", "".join(lines), timeout=3000)
+        for f, r, m in zip(seeds, sreal, smodel):
+            if " ".join(r.split()[:3]) != m:
+                ck.unproved("correspondence Container.unlha vs decrunch_lha (repository archive)", "%s: real=%s model=%s" % (os.path.basename(f), r, m))
+                return
+        ck.bump("lha_repo_archives_structure_matched", len(seeds))
+    ck.cov["traces_validated_against_impl"] += len(cases)
+
+
+ARCFS_EXCL = ["ReadMe", "README", "readme", "A.TXT", "InfoText", "x.doc"]
+
+
+def corr_arcfs(ck, exe, workdir, n):
+    """Container.arcfsRead (model of arcfs_read) vs the REAL arcfs_read on archives of the independent python writer,
+    archives written by the LEAN writer arcfsWrap (+ rle90Enc; object of C08_arcfs_framing) and mutated archives."""
+    rng = ck.rng
+    cases = []
+    for i in range(n):
+        p = lzw_payload(rng, rng.choice([1, 3, 40, 700, 5000]))
+        pre, post = split_companions(rng, companions(rng, ARCFS_EXCL))
+        nm = rng.choice(["song/mod", "test/xm", "a", "module"])
+        members = [(a, d, rng.choice([0x82, 0x83])) for a, d in pre] + [(nm, p, rng.choice([0x82, 0x83]))] + [(a, d, 0x82) for a, d in post]
+        cases.append((W.arcfs_archive(members, pad_entries=rng.choice([0, 0, 1, 3])), p, p, "python-writer %s" % [m[0] for m in members]))
+    if ck.lean_ok:
+        enc = []
+        for i in range(n):
+            p = lzw_payload(rng, rng.choice([1, 3, 40, 700, 5000]))
+            ms = ["%s:%d:%s" % (a.encode().hex(), rng.choice([0x82, 0x83]), d.hex() or "-") for a, d in companions(rng, ARCFS_EXCL)] + \
+                 ["%s:%d:%s" % (rng.choice(["song/mod", "a", "module"]).encode().hex(), rng.choice([0x82, 0x83]), p.hex())] + \
+                 ["%s:%d:%s" % (a.encode().hex(), 0x82, d.hex() or "-") for a, d in companions(rng, ARCFS_EXCL + ["other"])]
+            enc.append(("arcfsenc %d %s" % (rng.choice([0, 0, 1, 3]), " ".join(ms)), p))
+        out = vlib.run_driver("drv_c08", "".join(l + "\n" for l, _ in enc), timeout=3000)
+        for (l, p), o in zip(enc, out):
+            cases.append((bytes.fromhex(o[2:]), p, p, "lean-writer " + l[:120]))
+    legit = len(cases)
+    for i in range(3 * n):
+        a, exp, p, tag = cases[rng.randrange(legit)]
+        a = bytearray(a)
+        for _ in range(rng.choice([1, 1, 2, 4])):
+            k = rng.randrange(0, min(len(a), 240)) if rng.random() < 0.8 else rng.randrange(len(a))
+            a[k] = rng.choice([a[k] ^ (1 << rng.randrange(8)), 0, 0xff, rng.getrandbits(8)])
+        if rng.random() < 0.15:
+            a = a[:rng.randrange(1, len(a))]
+        cases.append((bytes(a), None, p, "mutated " + tag))
+    real = run_dp(ck, exe, workdir, "arcfs", [("arcfs", a) for a, _, _, _ in cases])
+    if real is None:
+        return
+    ck.bump("arcfs_archives", len(cases))
+    ck.bump("arcfs_archives_accepted", sum(1 for l in real if l.startswith("D ok")))
+    for (a, exp, p, tag), r in zip(cases, real):
+        if exp is not None and r != "D ok %d %016x" % (len(exp), fnv1a(exp)):
+            if tag.startswith("lean-writer"):
+                ck.unproved("correspondence Container.arcfsWrap (Lean writer) vs arcfs_read", "%s: real=%s" % (tag, r))
+            else:
+                ck.violation("oracle:arcfs:stream", {"archive_hex": a.hex() if len(a) < 40000 else None, "what": tag},
+                             "arcfs_read does not return the member of a legal archive (%s): %s" % (tag, r))
+            return
+    if not ck.lean_ok:
+        return
+    model = vlib.run_driver("drv_c08", "".join("arcfs %s %s\n" % (a.hex(), p.hex() or "-") for a, _, p, _ in cases), timeout=3000)
+    for (a, exp, p, tag), r, m in zip(cases, real, model):
+        if m == "D dec" and exp is None:
+            ck.bump("arcfs_mutated_cases_reaching_a_parameter_decoder")
+            continue
+        if r != m:
+            ck.unproved("correspondence Container.arcfsRead vs arcfs_read", "%s (%d bytes): real=%s model=%s entries=%s" % (tag, len(a), r, m, a[96:96 + 72].hex()))
+            return
+    ck.cov["traces_validated_against_impl"] += len(cases)
+
+
+def corr_lzx(ck, exe, workdir, n):
+    """Container.lzxRead (model of lzx_read: entry headers, header CRC-32, merge state machine, selection, CRC gate) vs
+    the REAL lzx_read on archives of the independent python writer, archives written by the LEAN writer lzxWrap
+    (object of C08_lzx_framing) and mutated archives."""
+    rng = ck.rng
+    cases = []
+    for i in range(n):
+        p = lzw_payload(rng, rng.choice([1, 3, 40, 700, 5000]))
+        pre, post = split_companions(rng, companions(rng))
+        cases.append((W.lzx_archive(pre + [(rnd_name(rng), p)] + post, comment=b"" if rng.random() < 0.7 else b"a comment"), p, p, "python-writer"))
+    if ck.lean_ok:
+        enc = []
+        for i in range(n):
+            p = lzw_payload(rng, rng.choice([1, 3, 40, 700, 5000]))
+            ms = ["%s:%s:%s" % (a.encode().hex(), rng.choice(["-", "-", b"cmt".hex()]), d.hex() or "-") for a, d in companions(rng)] + \
+                 ["%s:%s:%s" % (rnd_name(rng).encode().hex(), rng.choice(["-", b"hello".hex()]), p.hex())] + \
+                 ["%s:-:%s" % (a.encode().hex(), d.hex() or "-") for a, d in companions(rng, EXCLUDED_NAMES + ["other.mod"])]
+            enc.append(("lzxenc " + " ".join(ms), p))
+        out = vlib.run_driver("drv_c08", "".join(l + "\n" for l, _ in enc), timeout=3000)
+        for (l, p), o in zip(enc, out):
+            cases.append((bytes.fromhex(o[2:]), p, p, "lean-writer " + l[:120]))
+    legit = len(cases)
+    for i in range(3 * n):
+        a, exp, p, tag = cases[rng.randrange(legit)]
+        a = bytearray(a)
+        for _ in range(rng.choice([1, 1, 2, 4])):
+            k = rng.randrange(0, min(len(a), 120)) if rng.random() < 0.8 else rng.randrange(len(a))
+            a[k] = rng.choice([a[k] ^ (1 << rng.randrange(8)), 0, 1, 2, 0xff, rng.getrandbits(8)])
+        if rng.random() < 0.15:
+            a = a[:rng.randrange(1, len(a))]
+        cases.append((bytes(a), None, p, "mutated " + tag))
+    real = run_dp(ck, exe, workdir, "lzx", [("lzx", a) for a, _, _, _ in cases])
+    if real is None:
+        return
+    ck.bump("lzx_archives", len(cases))
+    ck.bump("lzx_archives_accepted", sum(1 for l in real if l.startswith("D ok")))
+    for (a, exp, p, tag), r in zip(cases, real):
+        if exp is not None and r != "D ok %d %016x" % (len(exp), fnv1a(exp)):
+            if tag.startswith("lean-writer"):
+                ck.unproved("correspondence Container.lzxWrap (Lean writer) vs lzx_read", "%s: real=%s" % (tag, r))
+            else:
+                ck.violation("oracle:lzx:stream", {"archive_hex": a.hex() if len(a) < 40000 else None, "what": tag},
+                             "lzx_read does not return the member of a legal archive (%s): %s" % (tag, r))
+            return
+    if not ck.lean_ok:
+        return
+    model = vlib.run_driver("drv_c08", "".join("lzx %s %s\n" % (a.hex(), p.hex() or "-") for a, _, p, _ in cases), timeout=3000)
+    for (a, exp, p, tag), r, m in zip(cases, real, model):
+        if m == "D dec" and exp is None:
+            ck.bump("lzx_mutated_cases_reaching_a_parameter_decoder")
+            continue
+        if r != m:
+            ck.unproved("correspondence Container.lzxRead vs lzx_read", "%s (%d bytes): real=%s model=%s head=%s" % (tag, len(a), r, m, a[:80].hex()))
+            return
+    ck.cov["traces_validated_against_impl"] += len(cases)
+
+
+def corr_mmcmp(ck, exe, workdir, n):
+    """Container.decrunchMmcmp (model of decrunch_mmcmp: header, block table, block/sub-block headers, block_copy) vs the
+    REAL decrunch_mmcmp on files of the independent python writer, files written by the LEAN writer mmcmpWrap (object of
+    C08_mmcmp_framing; random splits into blocks and sub-blocks) and mutated files."""
+    rng = ck.rng
+    cases = []
+    for i in range(n):
+        p = lzw_payload(rng, rng.choice([16, 17, 40, 700, 5000, 20000]))
+        cases.append((W.mmcmp_stored(p, block_size=rng.choice([0x10000, 5000, 333, 64]), subs_per_block=rng.choice([1, 1, 2, 5])), p, p, "python-writer"))
+    if ck.lean_ok:
+        enc = []
+        for i in range(n):
+            p = lzw_payload(rng, rng.choice([16, 17, 40, 700, 5000]))
+            blocks, q = [], 0
+            while q < len(p):
+                bl = p[q:q + rng.choice([7, 64, 333, 5000])]
+                q += len(bl)
+                subs, r = [], 0
+                while r < len(bl):
+                    sb = bl[r:r + rng.choice([1, 3, 50, 5000])]
+                    r += len(sb)
+                    subs.append(sb)
+                blocks.append(subs)
+            enc.append(("mmcmpenc " + " ".join(":".join(sb.hex() for sb in b) for b in blocks), p))
+        out = vlib.run_driver("drv_c08", "".join(l + "\n" for l, _ in enc), timeout=3000)
+        for (l, p), o in zip(enc, out):
+            cases.append((bytes.fromhex(o[2:]), p, p, "lean-writer (%d blocks)" % l.count(" ")))
+    legit = len(cases)
+    for i in range(3 * n):
+        a, exp, p, tag = cases[rng.randrange(legit)]
+        a = bytearray(a)
+        for _ in range(rng.choice([1, 1, 2, 4])):
+            k = rng.randrange(0, min(len(a), 80)) if rng.random() < 0.6 else rng.randrange(len(a))
+            a[k] = rng.choice([a[k] ^ (1 << rng.randrange(8)), 0, 1, 0xff, rng.getrandbits(8)])
+        if rng.random() < 0.15:
+            a = a[:rng.randrange(1, len(a))]
+        cases.append((bytes(a), None, p, "mutated " + tag))
+    real = run_dp(ck, exe, workdir, "mmcmp", [("mmcmp", a) for a, _, _, _ in cases])
+    if real is None:
+        return
+    ck.bump("mmcmp_files", len(cases))
+    ck.bump("mmcmp_files_accepted", sum(1 for l in real if l.startswith("D ok")))
+    for (a, exp, p, tag), r in zip(cases, real):
+        if exp is not None and r != "D ok %d %016x" % (len(exp), fnv1a(exp)):
+            if tag.startswith("lean-writer"):
+                ck.unproved("correspondence Container.mmcmpWrap (Lean writer) vs decrunch_mmcmp", "%s: real=%s" % (tag, r))
+            else:
+                ck.violation("oracle:mmcmp:stream", {"archive_hex": a.hex() if len(a) < 40000 else None, "what": tag},
+                             "decrunch_mmcmp does not return the payload of a legal file (%s): %s" % (tag, r))
+            return
+    if not ck.lean_ok:
+        return
+    model = vlib.run_driver("drv_c08", "".join("mmcmp %s %s\n" % (a.hex(), p.hex() or "-") for a, _, p, _ in cases), timeout=3000)
+    for (a, exp, p, tag), r, m in zip(cases, real, model):
+        if m == "D dec" and exp is None:
+            ck.bump("mmcmp_mutated_cases_reaching_a_parameter_decoder")
+            continue
+        if r != m:
+            ck.unproved("correspondence Container.decrunchMmcmp vs decrunch_mmcmp", "%s (%d bytes): real=%s model=%s head=%s" % (tag, len(a), r, m, a[:64].hex()))
+            return
+    ck.cov["traces_validated_against_impl"] += len(cases)
+
+
+def corr_zipenc(ck, exe, workdir, n):
+    """archives written by the LEAN writer `zipWrap` (object of C08_zip_framing): python's zipfile must accept them
+    (referee: the writer emits real zip files), the REAL decrunch_zip must return the module, the model must agree"""
+    import io
+    import zlib
+    rng = ck.rng
+    if not ck.lean_ok:
+        return
+    hx = lambda b: b.hex() or "-"
+    lines, exp, names = [], [], []
+    for i in range(n):
+        p = lzw_payload(rng, rng.choice([1, 3, 40, 700, 5000]))
+        nm = rnd_name(rng)
+        pre = [(a, d) for a, d in companions(rng)]
+        if rng.random() < 0.3:
+            pre.insert(rng.randint(0, len(pre)), ("docs/", b""))
+        ms = []
+        for a, d in pre + [(nm, p)] + companions(rng, EXCLUDED_NAMES + ["other.mod"]):
+            meth = rng.choice([0, 0, 8]) if d else 0
+            cd = d
+            if meth == 8:
+                co = zlib.compressobj(rng.choice([1, 6, 9]), zlib.DEFLATED, -15)
+                cd = co.compress(d) + co.flush()
+            extra = rng.choice([b"", b"", b"\x55\x54\x05\x00\x01\x00\x00\x00\x00"])
+            cextra = rng.choice([b"", extra])
+            cm = rng.choice([b"", b"", b"a comment"])
+            ea = 16 if a.endswith("/") else rng.choice([0, 0x81a40000, 0x20])
+            ms.append("%s:%d:%d:%s:%s:%s:%s:%s" % (a.encode().hex(), meth, ea, hx(extra), hx(cextra), hx(cm), hx(d), hx(cd)))
+        lead = rng.choice([b"", b"", b"", b"PK00"])
+        clen = rng.choice([0, 0, 0, 7, rng.choice(ZIP_COMMENT_CORE), rng.choice(ZIP_COMMENT_MORE)])
+        lines.append("zipenc %s %d %s" % (hx(lead), clen, " ".join(ms)))
+        exp.append(p)
+        names.append(nm)
+    out = vlib.run_driver("drv_c08", "".join(l + "\n" for l in lines), timeout=3000)
+    arcs = [bytes.fromhex(o[2:]) for o in out]
+    for l, a, p, nm in zip(lines, arcs, exp, names):
+        try:
+            with zipfile.ZipFile(io.BytesIO(a)) as z:
+                bad = z.testzip()
+                got = z.read(nm)
+        except Exception as e:       # noqa: BLE001
+            ck.unproved("Lean zip writer refused by python zipfile", "%s: %r" % (l[:200], e))
+            return
+        if bad is not None or got != p:
+            ck.unproved("Lean zip writer refused by python zipfile", "%s: testzip=%r" % (l[:200], bad))
+            return
+    real = run_dp(ck, exe, workdir, "zipenc", [("zip", a) for a in arcs])
+    if real is None:
+        return
+    model = vlib.run_driver("drv_c08", "".join("zip %s %s\n" % (a.hex(), hx(p)) for a, p in zip(arcs, exp)), timeout=3000)
+    for l, a, p, r, m in zip(lines, arcs, exp, real, model):
+        want = "%d %016x" % (len(p), fnv1a(p))
+        if r != "D ok " + want:
+            ck.unproved("correspondence Container.zipWrap (Lean writer) vs decrunch_zip", "%s: real=%s expected=%s" % (l[:300], r, want))
+            return
+        if not m.endswith("ok " + want):
+            ck.unproved("correspondence Container.unzip vs decrunch_zip", "%s: real=%s model=%s" % (l[:300], r, m))
+            return
+    ck.bump("zip_lean_written_archives", len(lines))
+    ck.cov["traces_validated_against_impl"] += len(lines)
+
+
 def corr_framing(ck, arch, results):
     """model driver vs the spies of the real depackers, on the archives small enough to ship as hex"""
     lines, keys = [], []
@@ -716,6 +1394,15 @@ def run(ck):
     corr_md5(ck, exe, workdir, 150 if quick else 3000)
     corr_magic(ck, exe, workdir, 400 if quick else 6000)
     corr_rle(ck, exe, workdir, 400 if quick else 8000)
+    corr_lzw(ck, exe, workdir, 40 if quick else 500)
+    corr_arcenc(ck, exe, workdir, 40 if quick else 500)
+    corr_pp(ck, exe, workdir, 40 if quick else 500)
+    corr_zipenc(ck, exe, workdir, 40 if quick else 500)
+    corr_lha(ck, exe, workdir, 40 if quick else 500)
+    corr_arcfs(ck, exe, workdir, 40 if quick else 500)
+    corr_lzx(ck, exe, workdir, 40 if quick else 500)
+    corr_mmcmp(ck, exe, workdir, 40 if quick else 500)
+    corr_gzip(ck, exe, workdir, 40 if quick else 400)
 
     # -- payload pool: corpus modules that load identically bare-by-path and from memory, plus generated ones
     maxsize = 150000 if quick else 600000
@@ -772,18 +1459,29 @@ def run(ck):
     arch = {}
     tiny = next(p for p in pool if p["path"].endswith("gen0.mod"))
     plan = []
+    aaaa = next(p for p in pool if p["path"].endswith("gen1.mod"))
     for fmt in SMALL_FORMATS:                      # regression witness of `decrunch:archive<100bytes`
-        plan.append((tiny, fmt))
+        plan.append((tiny, fmt, None))
     for _ in range(3 if quick else 8):             # known finding: dictionary above XZ_MAX_DICT
-        plan.append((tiny if ck.rng.random() < 0.5 else ck.rng.choice(pool), "xz-bigdict"))
+        plan.append((tiny if ck.rng.random() < 0.5 else ck.rng.choice(pool), "xz-bigdict", None))
+    # zip archive comments that move the end-of-central-directory record across the scan windows of miniz
+    # (regression region of /repo 956fc91), in small and in large archives
+    clens = ZIP_COMMENT_CORE + (ck.rng.sample(ZIP_COMMENT_MORE, 8) if quick else ZIP_COMMENT_MORE)
+    for cl in clens:
+        plan.append((tiny, "zip", {"comment_len": cl}))
+        plan.append((ck.rng.choice(pool), "zip", {"comment_len": cl}))
+    # old-format compress(1) streams (no block mode): code 256 is an ordinary table entry there
+    for _ in range(2 if quick else 6):
+        plan.append((aaaa, "compress", {"block_mode": False}))
+        plan.append((ck.rng.choice(pool), "compress", {"block_mode": False}))
     while len(plan) < narch:
         p = ck.rng.choice(pool)
         if len(p["data"]) > 100000 and ck.rng.random() < 0.6:
             p = ck.rng.choice(pool)
-        plan.append((p, ck.rng.choice(FORMATS)))
+        plan.append((p, ck.rng.choice(FORMATS), None))
     fmt_count = {}
-    for i, (p, fmt) in enumerate(plan):
-        made = make_archive(ck.rng, fmt, p["data"], xzmax)
+    for i, (p, fmt, force) in enumerate(plan):
+        made = make_archive(ck.rng, fmt, p["data"], xzmax, force)
         if made is None:
             continue
         a, recipe, info = made
@@ -834,6 +1532,8 @@ def run(ck):
             c["oracle_failed"] = True
             small = len(c["abytes"]) < 100 and fmt != "bare" and any(f.startswith("load_rc=-3") for f in fails)
             sig = "decrunch:archive<100bytes" if small else "oracle:%s:%s" % (fmt, fails[0].split("=")[0])
+            if fmt == "zip" and c["recipe"].get("comment_len", 0) >= 4000 and any(f.startswith("load_rc=") for f in fails):
+                sig = "zip:comment:eocd-scan"      # the end-of-central-directory scan lost a record behind a long comment
             fails_by[sig] = fails_by.get(sig, 0) + 1
             ck.violation(sig, {"how": "python3 tools/check.py C08 --replay <this file>", "archive": c["apath"], "payload": c["ppath"],
                                "archive_hex": c["abytes"].hex() if len(c["abytes"]) <= 65536 else None,
@@ -889,7 +1589,7 @@ def run(ck):
     ck.assumptions += [
         "python zlib/bz2/lzma/zipfile, CLI gzip/bzip2/xz/zip and tools/c08_writers.py are correct independent encoders (own LZW writer refereed by gzip -d)",
         "payload modules whose loader opens companion files or derives data from the path are outside C08 (dropped from the pool; C07/C10/C11)",
-        "entropy decoders satisfy dec (enc p) = some p — exercised, not proved",
+        "entropy decoders other than compress-LZW / PowerPacker / RLE90 satisfy dec (enc p) = some p — exercised, not proved",
     ]
 
 
@@ -898,6 +1598,15 @@ def replay(ck, rp):
     r = rp["replay"]
     workdir = os.path.join(vlib.OUT, "c08-replay")
     os.makedirs(workdir, exist_ok=True)
+    if r.get("dp") and r.get("stream_hex") is not None:
+        one = os.path.join(workdir, "dp-replay.txt")
+        open(one, "w").write("%s %s\n" % (r["dp"], r["stream_hex"]))
+        rc, out, err = vlib.run_exe(exe, ["dp", one], timeout=20, env=ASAN_ENV)
+        print(out.decode("latin-1")[-500:], err[-1500:])
+        if rc != 0:
+            print("VIOLATION property=C08 replay=%s (%s)" % (one, "no result after 20 s" if rc == -999 else "rc=%d" % rc))
+            return 1
+        return 0
     ap, pp = r.get("archive"), r.get("payload")
     if r.get("archive_hex"):
         ap = os.path.join(workdir, "archive.bin")
